@@ -9,10 +9,10 @@ package gitindex_test
 
 import (
 	"bytes"
-	"math/bits"
 	"context"
 	"fmt"
 	"log"
+	"math/bits"
 	"os"
 	"os/exec"
 	"path/filepath"
